@@ -4,17 +4,75 @@ import tgen
 import positions as P
 
 
+ATOM_FORMS = [
+    (("int", "i32"), "simple", None), (("int", "i32"), "eq", None), (("int", "i32"), "ne", None), (("int", "i32"), "lt", None),
+    (("int", "i32"), "le", None), (("int", "i32"), "gt", None), (("int", "i32"), "ge", None), (("int", "i32"), "closure", None),
+    (("int", "i32"), "range", "closed"), (("int", "i32"), "range", "half"), (("int", "i32"), "range", "from"),
+    (("int", "i32"), "range", "to"), (("int", "i32"), "range", "toincl"), (("int", "u8"), "range", "from"), (("int", "i64"), "lt", None),
+    (("string",), "string", None), (("string",), "eq", None), (("string",), "ne", None), (("string",), "regex", None),
+    (("string",), "like", None), (("string",), "closure", None), (("strref",), "string", None), (("strref",), "eq", None),
+    (("bool",), "simple", None), (("bool",), "eq", None), (("char",), "simple", None), (("char",), "range", "closed"),
+    (("f64",), "gt", None), (("f64",), "range", "half"), (("f64",), "eq", None), (("po",), "lt", None), (("po",), "ge", None),
+]
+COMPOUND = ["option", "vec", "tuple", "struct", "enum", "result", "set", "map"]
+
+
+def far_values(v, t):
+    """Values on both sides of v, near and far, so that every bound of a range / comparison is crossed."""
+    k = t[0]
+    if k == "int":
+        lo = 0 if t[1] == "u8" else -10**6
+        hi = 255 if t[1] == "u8" else 10**6
+        return [("int", max(lo, min(hi, v[1] + d))) for d in (-30, -2, 2, 30)]
+    if k == "f64":
+        return [("dec", v[1] + d) for d in (-3000, -50, 50, 3000)]
+    if k == "char":
+        return [("chr", c) for c in "0Az~" if c != v[1]][:3]
+    if k in ("string", "strref"):
+        return [("str", v[1] + "x"), ("str", "zz" + v[1]), ("str", "")] if v[1] else [("str", "x"), ("str", "hello")]
+    if k == "bool":
+        return [("bool", not v[1])]
+    if k == "po":
+        a, b = v[3][0][1], v[3][1][1]
+        return [("adt", "Po", [], [("int", max(0, a + da)), ("int", max(0, b + db))], "Po", "tuple") for da, db in ((2, 2), (-2, -2), (2, -2), (-2, 2))]
+    return []
+
+
 def make_cases(rng, nbase):
-    cases = []
-    k = 0
-    for b in range(nbase):
+    """Systematic: every atom form (and every range shape) and every compound type, each with a
+    matching and a non-matching value, in every position; then `nbase` random bases."""
+    bases = []
+    for (t, form, shape) in ATOM_FORMS:
         g = tgen.Gen(rng)
-        t = g.gen_type(rng.choice([0, 0, 1, 1, 2]), allow=("atom", "option", "vec", "tuple", "struct", "enum"))
+        v0 = g.gen_val(t)
+        pg = tgen.PatGen(g, rng, root_is_ref=True)
+        pg.force, pg.force_shape = form, shape
+        pat = pg.pat(v0, t, depth=1)
+        bases.append((g, t, v0, pg, pat, False))
+        for w in far_values(v0, t):
+            bases.append((g, t, w, pg, pat, True))
+    for kind in COMPOUND:
+        for _ in range(2):
+            g = tgen.Gen(rng)
+            t = g.gen_type(2, allow=(kind,))
+            if t[0] != kind:
+                t = g.gen_type(2, allow=(kind,))
+            v0 = g.gen_val(t)
+            pg = tgen.PatGen(g, rng, root_is_ref=True)
+            pat = pg.pat(v0, t, depth=1)
+            bases.append((g, t, v0, pg, pat, False))
+            bases.append((g, t, g.perturb(v0, t, 0.7), pg, pat, True))
+    for _ in range(nbase):
+        g = tgen.Gen(rng)
+        t = g.gen_type(rng.choice([0, 1, 1, 2]), allow=("atom", "option", "vec", "tuple", "struct", "enum"))
         v0 = g.gen_val(t)
         pg = tgen.PatGen(g, rng, root_is_ref=True)
         pat = pg.pat(v0, t, depth=1)
-        v = v0 if rng.random() < 0.45 else g.perturb(v0, t, 0.6)
-        extra = "(v %s (int 0)) (v %s (str %s)) (m %s %s)" % (tgen.hexs("0"), tgen.hexs('"k"'), tgen.hexs("k"), tgen.hexs("get"), tgen.hexs("field:f"))
+        bases.append((g, t, v0 if rng.random() < 0.45 else g.perturb(v0, t, 0.6), pg, pat, None))
+    cases = []
+    k = 0
+    extra = "(v %s (int 0)) (v %s (str %s)) (m %s %s)" % (tgen.hexs("0"), tgen.hexs('"k"'), tgen.hexs("k"), tgen.hexs("get"), tgen.hexs("field:f"))
+    for b, (g, t, v, pg, pat, _) in enumerate(bases):
         for pos in P.POSITIONS:
             c = t3.Case()
             c.id = k
@@ -34,7 +92,7 @@ def make_cases(rng, nbase):
 def run(ck):
     ck.prove(["AsModel.Theorems.C11"])
     ck.build_harness("inproc")
-    n = 40 if ck.tier == "quick" else 400
+    n = 10 if ck.tier == "quick" else 300
     cases = t3.run_corpus(ck, "c11", n, per_bin=16, positions=make_cases)
     by_base = {}
     for c in cases:
